@@ -10,6 +10,7 @@ from pydsol.core.interfaces import StatEvents                    # noqa: E402
 from pydsol.core.pubsub import EventListener                      # noqa: E402
 from pydsol.core.statistics import (Tally, Counter, EventBasedTally,   # noqa: E402
                                     EventBasedCounter)
+from pydsol.core.units import Duration, Length                    # noqa: E402
 
 PROPERTY = "C09"
 LEVEL = "exploration"
@@ -99,8 +100,13 @@ def generate(seed, tier, idx=0):
     n = rng.choice(big)
     vals = gen_values(rng, regime, n)
     ops = []
+    subclass = rng.random() < 0.15      # some observations are quantities (float subclasses)
+    via_event = rng.random() < 0.5
     for v in vals:
-        ops.append(["reg", v])
+        if subclass and rng.random() < 0.3:
+            ops.append(["regq", float(v), rng.choice(["s", "min", "m"]), via_event])
+        else:
+            ops.append(["reg", v])
         r = rng.random()
         if r < 0.06:
             ops.append(["bad", rng.choice(["nan", "str", "none", "list"])])
@@ -223,6 +229,29 @@ def run_tally(case):
             info["accepted"] += 1
             if sub is not None:
                 sub.settle()
+        elif op[0] == "regq":
+            # a quantity is a float: it is either registered with its plain
+            # (si) value or rejected without changing anything
+            q = Length(op[1], "m") if op[2] == "m" else Duration(op[1], op[2])
+            before = snapshot_text(read(st, GETTERS))
+            try:
+                if op[3] and variant != "plain":
+                    from pydsol.core.pubsub import Event
+                    st.notify(Event(StatEvents.DATA_EVENT, q))
+                else:
+                    st.register(q)
+                xs.append(float(q))
+                info["accepted"] += 1
+                if sub is not None:
+                    sub.settle()
+            except Exception as e:
+                after = snapshot_text(read(st, GETTERS))
+                info["rejected"] += 1
+                if before != after:
+                    diff = {k: (before[k], after[k]) for k in before if before[k] != after[k]}
+                    return ("rejected-input-changed-state", "op #%d: the observation %r (a "
+                            "float subclass) raised %s: %s and changed %s"
+                            % (i, q, type(e).__name__, e, diff)), info
         elif op[0] == "bad":
             before = snapshot_text(read(st, GETTERS))
             try:
